@@ -13,7 +13,8 @@ import OptunaVerif.Model.Basic
       exception class does it raise.
   So `'5'` is `seq [ok 5]`, `b'5'` is `seq [ok 53]`, `10**400` is `scalar (bad overflowError)`,
   a numpy 1-d array is `scalar (bad typeError)` (it is not a Sequence), and an object whose
-  `__float__` raises RuntimeError is `scalar (bad (other c))`.  The classifier that maps a concrete
+  `__float__` raises RuntimeError is `scalar (bad (other c))` (infeasible like the others since the
+  `except Exception` repair).  The classifier that maps a concrete
   value to this representation lives in verif/props/c02.py and works by calling `float`,
   `isinstance(·, Sequence)` and `iter` on the value (trusted; `float`/iteration are assumed
   deterministic).
@@ -21,17 +22,20 @@ import OptunaVerif.Model.Basic
 namespace OptunaVerif.Tell
 open OptunaVerif
 
-/-- Exception class raised by `float(e)`. `other c` = any class outside the three the code names
-(`c` is an opaque class id chosen by the harness). -/
+/-- Exception class raised by `float(e)`. `other c` = any other Exception subclass (`c` is an opaque
+class id chosen by the harness). -/
 inductive CastExc where
   | valueError | typeError | overflowError | other (c : Nat)
 deriving DecidableEq, Repr, Inhabited
 
-/-- The `except (ValueError, TypeError, OverflowError)` clause of `_check_values_are_feasible`
-(_tell.py:72).  Tied to the source text by the translator (Generated/TellGen.lean). -/
+/-- The `except Exception` clause around `float(v)` in `_check_values_are_feasible` (_tell.py:72): every
+exception class of `float(v)` makes the value infeasible (the trial is failed), none propagates.  (Before
+the repair "a returned value whose float() raises any exception must fail the trial" only ValueError /
+TypeError / OverflowError were named and `other` propagated, leaving the trial RUNNING.)  Tied to the
+source text by the translator: `TellGen.castCaught`, theorem `C02.gen_castCaught`. -/
 def castCaught : CastExc → Bool
   | .valueError | .typeError | .overflowError => true
-  | .other _ => false
+  | .other _ => true
 
 inductive Elem where
   | ok (x : XVal)
